@@ -846,6 +846,22 @@ def c13_argument_forms(ctx, cls, ch):
                         if 0 <= rr < H and 0 <= cc < W:
                             want[i, 0, :, a, b] = im.pixels[:, rr, cc]
             close(ctx, tag + '/outside-pixels==fill-value,inside==source(reference)', ref, want, 0)
+            if cval == 0.0:
+                # every boundary mode, nearest-neighbour order: the method equals the resampling function it documents,
+                # and (edge replication) an independent np.pad reference
+                for mode in ('nearest', 'reflect', 'wrap', 'mirror'):
+                    got = im.extract_patches(S.PointCloud(centres.copy()), patch_shape=ps, order=0, mode=mode)
+                    ref_m = extract_patches_by_sampling(im.pixels, centres.copy(), ps, np.zeros((1, 2), dtype=np.intp), order=0, mode=mode, cval=0.0)
+                    close(ctx, tag + '/order0,mode=%s/method==resampling-function' % mode, got, ref_m, 0)
+                    if mode == 'nearest':
+                        pad = 12
+                        big = np.pad(im.pixels, ((0, 0), (pad, pad), (pad, pad)), mode='edge')
+                        want_e = np.zeros(got.shape)
+                        for i, p in enumerate(centres):
+                            r0 = int(p[0]) - ps[0] // 2 + pad
+                            c0 = int(p[1]) - ps[1] // 2 + pad
+                            want_e[i, 0] = big[:, r0:r0 + ps[0], c0:c0 + ps[1]]
+                        close(ctx, tag + '/order0,mode=nearest/outside-pixels-replicate-the-edge(reference)', got, want_e, 0)
             forms = [('int-points', S.PointCloud(centres.astype(np.int64)), ps), ('bare-array', None, ps), ('shape-as-list', S.PointCloud(centres.copy()), list(ps)),
                      ('shape-as-array', S.PointCloud(centres.copy()), np.array(ps)), ('float32-points', S.PointCloud(centres.astype(np.float32)), ps)]
             for fname, pc, pshape in forms:
@@ -900,6 +916,17 @@ def c19_index_forms(ctx, n):
             sub = ll[idx]
             ctx.check_true('ll[%s as %s]/nothing-evaluated-by-selecting' % (sq, fname), calls == [])
             ctx.check_true('ll[%s as %s]/same-as-list' % (sq, fname), isinstance(sub, LazyList) and len(sub) == len(want) and [sub[k] for k in range(len(sub))] == want)
+    for sq in seqs:
+        want = [vals[i] for i in sq]
+        for fname, mk in (('iterator', lambda: iter(list(sq))), ('generator', lambda: (i for i in sq)), ('map-object', lambda: map(int, sq)),
+                          ('reversed-object', lambda: reversed(list(sq)[::-1])), ('dict-keys', lambda: dict.fromkeys(range(len(sq))) if False else iter(tuple(sq)))):
+            del calls[:]
+            sub = ll[mk()]
+            ctx.check_true('ll[%s as one-shot %s]/nothing-evaluated-by-selecting' % (sq, fname), calls == [])
+            ctx.check_true('ll[%s as one-shot %s]/same-as-list' % (sq, fname), isinstance(sub, LazyList) and len(sub) == len(want) and list(sub) == want,
+                           '%r vs %r' % (len(sub), len(want)))
+    if n:
+        ctx.check_true('ll[one-shot iterator with an out-of-range index]/IndexError', ctx.raises(IndexError, lambda: ll[iter([0, n])]))
     for r in (range(n), range(n - 1, -1, -1), range(0, n, 2), range(-1, -n - 1, -1), range(-n, 0), range(1, 1)):
         want = [vals[i] for i in r]
         del calls[:]
@@ -1175,6 +1202,14 @@ def _all_transforms(T, S, rs, d):
         out.append(('PiecewiseAffine', T.PiecewiseAffine(S.PointCloud(sq), S.PointCloud(sq * 1.2 + 0.3 * rs.randn(*sq.shape)))))
     out.append(('WithDims', T.WithDims(list(range(d - 1)) if d > 2 else [1, 0])))
     return out
+
+
+@contract('C02', 'transform_not_modified_by_applying', level='bounded', native_samples=2, configs=[dict(d=2), dict(d=3)],
+          functions=['menpo.transform.base:Transform.apply', 'menpo.transform.piecewiseaffine.base:CachedPWA.index_alpha_beta'])
+def c02_apply_history(ctx, d):
+    """(C02 'nor the transform is modified') applying - successfully or not -
+    leaves every transform class answering as before: see C09/apply_history_independence."""
+    return c09_apply_history(ctx, d)
 
 
 @contract('C09', 'apply_history_independence', level='bounded', native_samples=2, configs=[dict(d=2), dict(d=3)],
